@@ -8,7 +8,7 @@ module String = Stdlib.String
                                   masked by the comparison); 2: everything; 3: as 1 and the model's decoder is
                                   not run on the result (printed rt:skipped; long outputs at displacement 4096
                                   cost output * displacement list steps in the list model) - also for lz10c
-   lzd <entry> <flag> B<stream>   entry 10 | 13 | f10 | f13; flag 0: skipped
+   lzd <entry> <flag> B<stream>   entry 10 | 13 | f10 | f13; flag 0 or 2: skipped
    The decoder model is run in both arithmetic modes; the line says so if they differ. *)
 let show_dec (r : BinNums.coq_N list Machine.outcome) : string =
   match r with
@@ -78,7 +78,7 @@ let lz13f (toks : string list) : string =
 let lzd (toks : string list) : string =
   match toks with
   | [entry; flag; b] ->
-    if flag = "0" then "SKIP" else
+    if flag = "0" || flag = "2" then "SKIP" else
       let s = parse_b b in
       let f = (match entry with
           | "10" -> (fun m -> LZDecode.lz10_decompress m s)
